@@ -130,15 +130,25 @@ def case(args):
     try:
         b = mk(kind, os.path.join(top, "s"))
         m.Environment.set(m.Environment(name="e", base_dir=top, repos=[m.ConfigurationRepository(name="r", clusters={"vfc": m.FunctionCluster(name="vfc", storage=b)})]))
-        f = fx.val
+        base = fx.kov if modifier == "override" else fx.val
+        f = base
         if modifier == "ignore":
             f = f.ignore_result()
         elif modifier == "local":
             f = f.force_local()
         want = outcome(lambda: fx.plain(name))
         transient = want[0] == "exc" and isinstance(want[1], NonMemoizedException)
-        fx.val("__neighbour")  # a neighbour call of the same function that must stay memoized
-        if not transient and want[0] == "val":
+        if want[0] == "exc":
+            # every other exception class of the alphabet has been recorded and replayed in this process before
+            for other in fx.EXCS:
+                if other != name.split(":")[-1]:
+                    for _ in range(2):
+                        try:
+                            fx.val(other)
+                        except Exception:
+                            pass
+        base("__neighbour")  # a neighbour call of the same function that must stay memoized
+        if not transient and want[0] == "val" and modifier != "override":
             try:
                 fx.twin(name)  # another function with a byte-identical result (shared stored object)
             except Exception:
@@ -175,7 +185,7 @@ def case(args):
         call("first", 1, False)
         call("second", 1 if transient else 0, True)
         if not bad:
-            mm = fx.val.memento(name)
+            mm = base.memento(name)
             if transient:
                 if mm is not None:
                     bad = ("recorded-not-to-be-memoized", "an exception marked not-to-be-memoized was recorded")
@@ -190,15 +200,17 @@ def case(args):
                 if mm.invocation_metadata.result_type != rt:
                     bad = ("result-type", "recorded result type %s, value read back classifies as %s" % (mm.invocation_metadata.result_type, rt))
         if not bad:
-            fx.val.forget(name)
+            base.forget(name)
             call("after-forget", 1, False)
             call("after-forget-second", 1 if transient else 0, True)
         if not bad:
             audit.bodies_reset()
-            fx.val("__neighbour")
+            nb = outcome(lambda: base("__neighbour"))
             if audit.bodies():
                 bad = ("forget-scope", "forgetting one call made another call of the same function run again")
-        if not bad and not transient and want[0] == "val":
+            elif nb != ("val", "neighbour"):
+                bad = ("neighbour-value", "the neighbour call of the same function now returns %s" % _short(nb))
+        if not bad and not transient and want[0] == "val" and modifier != "override":
             audit.bodies_reset()
             got = outcome(lambda: fx.twin(name))
             if [x for x in audit.bodies() if x[0] == "twin"]:
@@ -253,7 +265,7 @@ def run(ctx):
     ctx.rule = ("result values: %d atoms (None, bool, ints, floats incl. -0.0/NaN/inf, str, bytes, date, naive/aware datetime, "
                 "Timestamp, numpy arrays of 7 dtypes empty/len 1/with NaN, Index/Series/DataFrame empty/tiny/object/NaN, in-memory and "
                 "on-disk partitions) + 7 exception classes, closed under list/dict to depth %d x {memory, filesystem, fs+cache 8 B / "
-                "4 KiB / 1 MiB} x {plain, ignore_result, force_local}; sequence call, call, memento(), forget, call, call + "
+                "4 KiB / 1 MiB} x {plain, ignore_result, force_local, all calls stored under one shared key override}; exception values after every other exception class of the alphabet (incl. a same-named class of another module) was recorded and replayed in the process; sequence call, call, memento(), forget, call, call + "
                 "neighbour call stays memoized. distinct = (backend, value, modifier)." % (len(names("quick")) - 7, 2 if thorough else 1))
     ctx.assumptions += ["pandas values have <= 100 rows (the cache's size estimator samples above that)",
                         "a replayed exception keeps its class when the class is importable and constructible from one string, otherwise "
@@ -262,9 +274,11 @@ def run(ctx):
     tasks = []
     for kind in BACKENDS:
         for n in ns:
-            for mod in (None, "ignore", "local"):
+            for mod in (None, "ignore", "local", "override"):
                 if not thorough and mod and kind not in ("fs", "fsc-4k") and ":" in n:
                     continue
+                if mod == "override" and (n.startswith("exc") or ":exc" in n):
+                    continue  # a key override wraps a returned value
                 tasks.append((kind, n, mod))
     if ctx.seed:
         import random
